@@ -189,7 +189,7 @@ fn main() {
     let default_mode = Mode::from_name(DEFAULT_MODE_NAME).expect("unknown configured default rounding mode");
     // the subject must report the configured default too (C20 checks this across configurations)
     assert_eq!(mode_of(RoundingMode::default()), default_mode, "harness and subject disagree on the configured default mode");
-    let nmax: i64 = tier.pick(99_999, 299_999);
+    let nmax: i64 = tier.pick(99_999, 1_999_999);
     run.bound("unscaled_max", nmax);
     run.bound("scales", "-3..=8");
     run.bound("targets", "from 4 left of the leading digit to 4 right of the last digit");
